@@ -61,6 +61,13 @@ def judge(ctx, kind, n, m, res, rp):
         ctx.rng.shuffle(rows)
         tab = pd.DataFrame(rows, columns=["CDR3B", "CDR3A"])
         check(ctx, f"pc(table sample with counts {n}, every second category with a missing chain)", lambda: prs.pc(tab), res["pc"], "pc/table_missing", rp)
+        # legacy (alpha chains, beta chains) tuple of two Series whose index labels differ (one chain was sorted / reversed /
+        # filtered without reset_index): chains are paired by position
+        pairs = [("CAV" + str(i), LABELS[i % len(LABELS)] + str(i)) for i, c in enumerate(n) for _ in range(c)]
+        ctx.rng.shuffle(pairs)
+        sa_ = pd.Series([a for a, _ in pairs], index=[f"a{j}" for j in range(len(pairs))] if len(pairs) % 2 else list(range(len(pairs))))
+        sb_ = pd.Series([b for _, b in pairs], index=list(range(len(pairs)))[::-1])
+        check(ctx, f"pc((Series alpha, Series beta with other index labels)) sample with counts {n}", lambda: prs.pc((sa_, sb_)), res["pc"], "pc/tuple_series", rp)
         # categories whose cells run into each other when written without a separator: ("1", "11..1"), ("11", "1..1"), ...
         K = len(n)
         amb = [("1" * (i + 1), "1" * (K - i)) for i, c in enumerate(n) for _ in range(c)]
